@@ -4,7 +4,7 @@
    coordinate [coord_text r c].  [read_table cf sh] = (items yielded by iter_table, exception that
    ended the iteration if any); an item is [Some object] or [None] (row without id values). *)
 From Coq Require Import ZArith List Bool.
-From AK Require Import Common.Err C18.Base gen.C18_Consts C18.Model C18.Lemmas C18.LemmasLadder C18.LemmasRange.
+From AK Require Import Common.Err C18.Base gen.C18_Consts C18.Model C18.Lemmas C18.LemmasLadder C18.LemmasCoord C18.LemmasRange.
 Import ListNotations.
 
 (* the origin markers read from the source can never be mistaken for a coordinate *)
@@ -121,11 +121,30 @@ Theorem ladder_equiv_guarded : forall cf sh w,
 Proof. exact ladder_equiv_gen. Qed.
 Print Assumptions ladder_equiv_guarded.
 
-(* ladder_origins (partial: single-cell attributes; the cells of ranged attributes are covered by
-   origin_consistent and rows_in_order only).  In a ladder reading the origin (r, c) of a
-   single-cell attribute of the object of sheet row R = t+1+j lies in rows t+1 .. R, holds exactly
-   what the filled-in table has at (R, c), and is the object's own cell whenever that is not blank. *)
-Definition ladder_origins_statement : Prop :=
+(* ... and in the remaining situation -- finding ladder-blank-first -- the ladder reading is a
+   PREFIX of the reading of the filled-in table: for every ladder reading (both end rules) the item
+   values are those of the filled-in table, row by row, as far as the ladder reading goes; either
+   the two readings agree to the end (same exception, if any), or stop_on = "blank first", the
+   ladder starts in the first sheet column and the ladder reading ended without an exception --
+   by rows_in_order at a row whose first cell is blank, i.e. at a "same as above" row (witness:
+   ladder_blank_first_refuted, where 2 items are missing). *)
+Theorem ladder_prefix : forall cf sh w,
+  Forall (fun vs => length vs = w) sh -> cf_ladder cf = true ->
+  exists rest,
+    map item_vals (fst (read_table (plain_of cf) (fill_sheet sh))) =
+    map item_vals (fst (read_table cf sh)) ++ rest /\
+    ((rest = [] /\ snd (read_table cf sh) = snd (read_table (plain_of cf) (fill_sheet sh))) \/
+     (stop_first cf = true /\ first_some_pos (sheet_titles sh) 0 = Some 0%nat /\
+      snd (read_table cf sh) = None)).
+Proof. exact ladder_prefix_l. Qed.
+Print Assumptions ladder_prefix.
+
+(* ladder_origins (full: single-cell attributes and every key of a ranged attribute).  In a
+   ladder reading every origin (r, c) of the object of sheet row R = t+1+j -- the origin of a
+   single-cell attribute, or the origin recorded under a key k of a ranged attribute (what
+   get_attr_origin(attr, k) reports, origin_reported) -- lies in rows t+1 .. R, holds exactly what
+   the filled-in table has at (R, c), and is the object's own cell whenever that is not blank. *)
+Theorem ladder_origins :
   forall cf sh w items e t tvs j o i v og r c,
   Forall (fun vs => length vs = w) sh -> cf_ladder cf = true ->
   read_table cf sh = (items, e) -> title_row sh = Some (t, tvs) ->
@@ -134,16 +153,8 @@ Definition ladder_origins_statement : Prop :=
   (S t <= r <= S t + j)%nat /\
   (exists x, cell_at sh r c = Some x /\ cell_at (fill_sheet sh) (S t + j) c = Some x) /\
   (forall y, cell_at sh (S t + j) c = Some y -> val_empty y = false -> r = (S t + j)%nat).
-
-Theorem ladder_origins_partial : forall cf sh w items e t tvs j o i v r c,
-  Forall (fun vs => length vs = w) sh -> cf_ladder cf = true ->
-  read_table cf sh = (items, e) -> title_row sh = Some (t, tvs) ->
-  nth_error items j = Some (Some o) -> nth_error (o_attrs o) i = Some (v, OCell r c) ->
-  (S t <= r <= S t + j)%nat /\
-  (exists x, cell_at sh r c = Some x /\ cell_at (fill_sheet sh) (S t + j) c = Some x) /\
-  (forall y, cell_at sh (S t + j) c = Some y -> val_empty y = false -> r = (S t + j)%nat).
 Proof. exact ladder_origins_l. Qed.
-Print Assumptions ladder_origins_partial.
+Print Assumptions ladder_origins.
 
 (* ---------------------------------------------------------------------------------------- *)
 (* range_detect (full).  The column names of a ranged attribute ([range_scan known names false],
@@ -168,30 +179,61 @@ Theorem range_columns : forall (post run : list str) (cells : list cell) (pre : 
 Proof. exact range_cols_nodup. Qed.
 Print Assumptions range_columns.
 
-(* the text get_attr_origin gives for a whole ranged attribute should be
-   "<leftmost source cell>:<rightmost source cell>" ([range_text_spec]) *)
-Definition range_text_statement : Prop := forall names cells,
+(* ---------------------------------------------------------------------------------------- *)
+(* range_text (full).  The text get_attr_origin(attr) gives for a whole ranged attribute
+   (model of sorted(origins.values(), key=_coord_sort_key), Model.range_text).
+   [pos_le p q]: cell p = (row, column) stands in a column left of q's, or in the same column and
+   not below it.  For ANY recorded origins d -- any number of columns (A..Z, AA, AB, ... the
+   column letters are the bijective base-26 numeral, LemmasCoord.v), any insertion order, source
+   cells of different rows -- the text is the marker (no cells), the coordinate (one cell), or
+   "<p>:<q>" where p and q are source cells, no source cell is left of p and none is right of q.
+   Ladder mode: the source cells of one ranged attribute can come from different rows (leading
+   blank cells are taken from rows above, ladder_origins); the text then names the leftmost and
+   the rightmost source cell, each with its own row (e.g. "B2:C3", range_text_ladder_example): it
+   is not the bounding rectangle, and the individual cells are reported by
+   get_attr_origin(attr, key). *)
+Theorem range_text_extremes : forall d : list (str * (nat * nat)),
+  match map snd d with
+  | [] => range_text d = marker_range_empty
+  | [p] => range_text d = pos_text p
+  | _ => exists p q, In p (map snd d) /\ In q (map snd d) /\
+                     (forall x, In x (map snd d) -> pos_le p x /\ pos_le x q) /\
+                     range_text d = pos_text p ++ [58%Z] ++ pos_text q
+  end.
+Proof. exact range_text_extremes_l. Qed.
+Print Assumptions range_text_extremes.
+
+(* object level: with distinct titles the cells read for the range group stand in strictly
+   increasing columns (range_columns), in any rows; then the text is
+   "<first source cell>:<last source cell>" ([range_text_spec]) -- for all column counts *)
+Theorem range_text : forall names cells,
   NoDup names -> length names = length cells ->
   (forall i j x y, (i < j)%nat -> nth_error cells i = Some x -> nth_error cells j = Some y ->
                    (c_col x < c_col y)%nat) ->
   range_text (dict_of (combine names (map cpos cells))) = range_text_spec (map cpos cells).
+Proof. exact range_text_l. Qed.
+Print Assumptions range_text.
 
-(* guarded: true when the source cells stand in one-letter columns (A..Z) *)
-Theorem range_text_guarded : forall names cells,
-  NoDup names -> length names = length cells -> cols_small_inc (map cpos cells) ->
-  range_text (dict_of (combine names (map cpos cells))) = range_text_spec (map cpos cells).
-Proof. exact range_text_guarded_l. Qed.
-Print Assumptions range_text_guarded.
-
-(* refuted beyond column Z: coordinates are sorted as strings, so for source cells Y2 Z2 AA2 AB2
-   the reported range is "AA2:Z2" -- finding origin-range-string-sort *)
-Theorem range_text_refuted :
-  exists cf sh o,
-    read_table cf sh = ([Some o], None) /\
+(* the former witness of finding origin-range-string-sort (coordinates were sorted as strings and
+   the text was "AA2:Z2"): source cells Y2 Z2 AA2 AB2 now give "Y2:AB2" *)
+Example range_text_wide_example :
+  exists o,
+    read_table wide_cf wide_sheet = ([Some o], None) /\
     (exists v, nth_error (o_attrs o) 1 = Some (v, ORange wide_origins)) /\
     get_attr_origin o (Some 1%nat) None true = Ok wide_text.
-Proof. exact range_text_refuted_l. Qed.
-Print Assumptions range_text_refuted.
+Proof. exact range_text_wide_l. Qed.
+Print Assumptions range_text_wide_example.
+
+(* ladder sheet  Y p q / 2019 5 6 / - - 7 : the ranged attribute of the second object has the
+   source cells B2 (taken from the row above) and C3; the text is "B2:C3" *)
+Example range_text_ladder_example :
+  exists o1 o2,
+    read_table lad_cf lad_sheet = ([Some o1; Some o2], None) /\
+    (exists v, nth_error (o_attrs o2) 1 =
+               Some (v, ORange [([112%Z], (1%nat, 1%nat)); ([113%Z], (2%nat, 2%nat))])) /\
+    get_attr_origin o2 (Some 1%nat) None true = Ok [66%Z; 50%Z; 58%Z; 67%Z; 51%Z].
+Proof. exact range_text_ladder_l. Qed.
+Print Assumptions range_text_ladder_example.
 
 (* ---------------------------------------------------------------------------------------- *)
 (* non-vacuity: a ladder sheet with leading blank row, unknown and blank-titled columns, a ranged
